@@ -1,5 +1,5 @@
 SPECIFICATION Spec
-CONSTANTS MaxBr = 2 MaxN = 4
+CONSTANTS MaxBr = 2 MaxN = 4 MaxRuns = 1
   Kinds <- KindsQuick
   BufSizes <- BufQuick
 INVARIANT Emitted
